@@ -410,9 +410,65 @@ class Inliner:
             visit_Lambda = visit_FunctionDef
         return T().visit(node)
 
+    def _inline_search(self, st, nxt):
+        """`x = helper(args)` + `if x is not None: BODY(always exits)` where the helper is a first-match search
+        (`for v in it: if c: return e` / `return None`)  ->  `for v in it: if c: x = e; BODY`"""
+        if not (isinstance(st, ast.Assign) and len(st.targets) == 1 and isinstance(st.targets[0], ast.Name)
+                and isinstance(st.value, ast.Call) and isinstance(nxt, ast.If) and not nxt.orelse):
+            return None
+        x = st.targets[0].id
+        t = nxt.test
+        if not (isinstance(t, ast.Compare) and len(t.ops) == 1 and isinstance(t.ops[0], ast.IsNot) and A.is_name(t.left, x)
+                and A.is_const(t.comparators[0], None)):
+            return None
+        last = nxt.body[-1] if nxt.body else None
+        if not isinstance(last, (ast.Return, ast.Raise)):
+            return None
+        m = self._match(st.value)
+        if m is None:
+            return None
+        h, mapping = m
+        body = _body(h[0])
+        if not (1 <= len(body) <= 2 and isinstance(body[0], ast.For) and not body[0].orelse and len(body[0].body) == 1
+                and isinstance(body[0].body[0], ast.If) and not body[0].body[0].orelse
+                and len(body[0].body[0].body) == 1 and isinstance(body[0].body[0].body[0], ast.Return)
+                and body[0].body[0].body[0].value is not None
+                and (len(body) == 1 or (isinstance(body[1], ast.Return) and (body[1].value is None or A.is_const(body[1].value, None))))):
+            return None
+        saved = h[3]
+        h2 = (h[0], h[1], h[2], body)
+        pre, new_body = self._instantiate(h2, mapping)
+        loop = new_body[0]
+        hit = loop.body[0]
+        found = hit.body[0].value
+        if isinstance(found, ast.Name) and getattr(self, '_cur_fn', None) is not None and not any(
+                isinstance(y, ast.Name) and y.id == x and isinstance(y.ctx, ast.Load)
+                and not any(y is z for z in ast.walk(nxt)) and getattr(y, 'lineno', 0) > getattr(nxt, 'end_lineno', 0)
+                for y in ast.walk(self._cur_fn)):
+            # x is only read inside BODY: use the found object directly
+            hit.body = [_AliasSubst({x: found}).visit(s_) for s_ in nxt.body]
+        else:
+            asg = ast.Assign(targets=[ast.Name(id=x, ctx=ast.Store())], value=found)
+            ast.copy_location(asg, hit.body[0])
+            hit.body = [asg] + nxt.body
+        for s_ in pre + [loop]:
+            ast.fix_missing_locations(s_)
+        self.count += 1
+        return pre + [loop]
+
     def run_block(self, stmts):
         out = []
-        for st in stmts:
+        skip = False
+        for k_, st in enumerate(stmts):
+            if skip:
+                skip = False
+                continue
+            if k_ + 1 < len(stmts):
+                rs = self._inline_search(st, stmts[k_ + 1])
+                if rs is not None:
+                    out.extend(self.run_block(rs))
+                    skip = True
+                    continue
             rep = self._inline_stmt(st)
             if rep is not None:
                 out.extend(self.run_block(rep))     # helpers calling helpers
@@ -425,7 +481,10 @@ class Inliner:
                 for h in st.handlers:
                     h.body = self.run_block(h.body)
             if isinstance(st, A.FUNC_TYPES):
+                prev_fn = getattr(self, '_cur_fn', None)
+                self._cur_fn = st
                 st.body = self.run_block(st.body)
+                self._cur_fn = prev_fn
             elif isinstance(st, ast.ClassDef):
                 st.body = self.run_block(st.body)
             else:
@@ -736,7 +795,7 @@ def adjacent_pairs_only(fn, name):
     for blk in _block_lists(fn):
         for i, st in enumerate(blk):
             if isinstance(st, ast.Assign) and len(st.targets) == 1 and A.is_name(st.targets[0], name):
-                if i + 1 >= len(blk) or not isinstance(blk[i + 1], ast.Return):
+                if i + 1 >= len(blk) or not _use_path_ok(blk[i + 1], name):
                     return False
                 if sum(1 for x in ast.walk(blk[i + 1]) if isinstance(x, ast.Name) and x.id == name) != 1:
                     return False
@@ -774,7 +833,7 @@ def inline_single_use_locals(fn):
                     nxt_stores = sum(1 for x in ast.walk(blk[i + 1]) if isinstance(x, ast.Name) and x.id == name
                                      and isinstance(x.ctx, ast.Store))
                     if stores.get(name, 0) > 1 and stores.get(name) == loads.get(name) and name not in params \
-                            and isinstance(blk[i + 1], ast.Return) and nxt_loads == 1 and nxt_stores == 0 \
+                            and nxt_loads == 1 and nxt_stores == 0 \
                             and adjacent_pairs_only(fn, name) \
                             and not any(isinstance(x, (ast.Yield, ast.YieldFrom, ast.Await, ast.NamedExpr)) for x in ast.walk(st.value)):
                         # a temporary that is defined several times, each time returned by the very next statement
@@ -829,12 +888,21 @@ def inline_nested_closures(fn):
                 continue
             binds = [x for x in ast.walk(fn) if (isinstance(x, ast.FunctionDef) and x.name == d.name)
                      or (isinstance(x, ast.Name) and x.id == d.name and isinstance(x.ctx, (ast.Store, ast.Del)))]
+            scope = fn
             if len(binds) != 1:
-                continue
+                # several definitions of the name: fine when this one and everything that uses the name after it live in
+                # one arm of an `if` whose other arm has its own definition (after loop unswitching)
+                owner = [n_ for n_ in ast.walk(fn) if isinstance(n_, ast.If) and (blk is n_.body or blk is n_.orelse)]
+                in_blk = [x for x in binds if any(x is y for s_ in blk for y in ast.walk(s_))]
+                outside_loads = [x for x in ast.walk(fn) if isinstance(x, ast.Name) and x.id == d.name and isinstance(x.ctx, ast.Load)
+                                 and not any(x is y for n_ in owner for y in ast.walk(n_))]
+                if not owner or len(in_blk) != 1 or outside_loads or blk[0] is not d and not isinstance(blk[0], (ast.Assign, ast.FunctionDef)):
+                    continue
+                scope = ast.Module(body=blk, type_ignores=[])
             params = [a.arg for a in d.args.posonlyargs + d.args.args]
-            uses = [x for x in ast.walk(fn) if isinstance(x, ast.Name) and x.id == d.name and isinstance(x.ctx, ast.Load)
+            uses = [x for x in ast.walk(scope) if isinstance(x, ast.Name) and x.id == d.name and isinstance(x.ctx, ast.Load)
                     and not any(x is y for y in ast.walk(d))]
-            calls = [x for x in ast.walk(fn) if isinstance(x, ast.Call) and isinstance(x.func, ast.Name) and x.func.id == d.name
+            calls = [x for x in ast.walk(scope) if isinstance(x, ast.Call) and isinstance(x.func, ast.Name) and x.func.id == d.name
                      and not any(x is y for y in ast.walk(d))]
             if not calls or len(calls) != len(uses):
                 continue
@@ -1316,6 +1384,53 @@ def continue_to_else(tree):
     return done
 
 
+def unswitch_loops(tree):
+    """`if c: <bindings A>  else: <bindings B>` directly followed by a loop that uses those bindings  ->
+    `if c: <A>; loop  else: <B>; loop'`  (loop unswitching; the arms only bind names - assignments to plain names and
+    nested function definitions -, so evaluating them first and then looping is what both forms do)"""
+    done = 0
+
+    def binds_only(stmts):
+        return bool(stmts) and all((isinstance(s_, ast.Assign) and len(s_.targets) == 1 and isinstance(s_.targets[0], ast.Name))
+                                   or isinstance(s_, ast.FunctionDef) for s_ in stmts)
+
+    def bound(stmts):
+        return {s_.targets[0].id if isinstance(s_, ast.Assign) else s_.name for s_ in stmts}
+
+    def fix(blk):
+        nonlocal done
+        out = []
+        i = 0
+        while i < len(blk):
+            st = blk[i]
+            nxt = blk[i + 1] if i + 1 < len(blk) else None
+            if isinstance(st, ast.If) and st.orelse and binds_only(st.body) and binds_only(st.orelse) \
+                    and isinstance(nxt, (ast.For, ast.While)) and not nxt.orelse \
+                    and any(isinstance(s_, ast.FunctionDef) for s_ in st.body + st.orelse):
+                names = bound(st.body) & bound(st.orelse)
+                used = {x.id for x in ast.walk(nxt) if isinstance(x, ast.Name) and isinstance(x.ctx, ast.Load)}
+                if names and names & used:
+                    st.body = st.body + [nxt]
+                    st.orelse = st.orelse + [A.clone(nxt)]
+                    out.append(st)
+                    done += 1
+                    i += 2
+                    continue
+            for field in ('body', 'orelse', 'finalbody'):
+                b_ = getattr(st, field, None)
+                if isinstance(b_, list) and b_ and isinstance(b_[0], ast.stmt) and not isinstance(st, ast.ClassDef):
+                    setattr(st, field, fix(b_))
+            if isinstance(st, ast.Try):
+                for h in st.handlers:
+                    h.body = fix(h.body)
+            out.append(st)
+            i += 1
+        return out
+    for fn in [n for n in ast.walk(tree) if isinstance(n, A.FUNC_TYPES)]:
+        fn.body = fix(fn.body)
+    return done
+
+
 def normalise(tree):
     """in-place normalisation of a module tree; returns statistics"""
     stats = {'helpers_inlined': 0, 'aliases_inlined': 0, 'loops_to_comprehensions': 0}
@@ -1329,6 +1444,7 @@ def normalise(tree):
     stats['nested_ifs_merged'] = merge_nested_ifs(tree)
     stats['ifexp_assign_to_if'] = ifexp_assign_to_if(tree)
     stats['continue_to_else'] = continue_to_else(tree)
+    stats['loops_unswitched'] = unswitch_loops(tree)
     stats['nested_closures_inlined'] = 0
     for fn in [n for n in ast.walk(tree) if isinstance(n, A.FUNC_TYPES)]:
         stats['nested_closures_inlined'] += sink_call_into_branches(fn)
